@@ -23,6 +23,9 @@ package batching
 //@   ensures ret != nil ==> len(ret.items) == min(old(len(s.pending)), s.maxBatchSize) && len(s.pending) == old(len(s.pending)) - len(ret.items) // C05 C06
 //@   ensures ret != nil ==> (forall i1 in 0..len(ret.items) :: ret.items[i1] == old(s.pending[i1])) // C05 C06
 //@   ensures ret != nil ==> (forall i2 in 0..len(s.pending) :: s.pending[i2] == old(s.pending)[i2 + len(ret.items)]) // C05 C06
+// the batch handed to the worker is not reachable through the queue any more: a later Append writes past the end of
+// s.pending, into its spare capacity, and must not overwrite an item whose callback has yet to run (C06)
+//@   ensures ret != nil ==> separate(ret.items, s.pending) // C06
 //@   modifies pkg:batching
 //@   nopanic
 //@   property C05 C06
